@@ -40,6 +40,7 @@ ConfigOf(c) ==
     \* the first configured issuer with that byte answers every such request - also those made for the other key
     [] c = "samecollide"  -> <<Iss(1, "A", "k1", FALSE), Iss(1, "A", "k1c", FALSE)>>
     [] c = "samecollide2" -> <<Iss(1, "A", "k1c", FALSE), Iss(1, "A", "k1", FALSE), Iss(2, "B", "k2", FALSE)>>
+    [] c = "onlyfails"  -> <<Iss(1, "A", "kx", TRUE), Iss(2, "B", "k2", FALSE)>>      \* the only type-1 issuer refuses everything
     [] c = "none"       -> <<>>
 
 VARIABLES cfg, reqs, phase, slots, wire, decoded, finalized
